@@ -62,11 +62,20 @@ def classify(sql):
     return 'other'
 
 
+def sqlinfo(sql, args):
+    try:
+        a = list(args[0]) if args and isinstance(args[0], (list, tuple)) else (dict(args[0]) if args and isinstance(args[0], dict) else None)
+        json.dumps(a)
+    except Exception:
+        a = None
+    return [' '.join(sql.split()), a]
+
+
 def tname():
     return threading.current_thread().name
 
 
-def gate(kind, stmt, con):
+def gate(kind, stmt, con, sqlinfo=None):
     """Called before every DB-API call. Returns normally if the call must be performed."""
     c = CTL
     if not c.armed: return
@@ -85,7 +94,7 @@ def gate(kind, stmt, con):
         real = con.real if con is not None else None
         try: dbtxn = bool(real.in_transaction) if real is not None else False
         except Exception: dbtxn = False
-        c.trace.append([kind, stmt, con.cid if con is not None else newid, not fail, c.lock_state(), dbtxn, tname()])
+        c.trace.append([kind, stmt, con.cid if con is not None else newid, not fail, c.lock_state(), dbtxn, tname(), sqlinfo])
     if c.crash_at is not None and k == c.crash_at and c.crash_kind == 'before':
         os._exit(9)
     if fail:
@@ -104,7 +113,7 @@ class CurWrap(object):
         self.__dict__['con'] = con
         self.__dict__['real'] = real
     def execute(self, sql, *args):
-        k = gate('execute', classify(sql), self.con)
+        k = gate('execute', classify(sql), self.con, sqlinfo(sql, args))
         r = self.real.execute(sql, *args)
         after(k)
         return self
@@ -131,7 +140,7 @@ class ConWrap(object):
         gate('cursor', '', self)
         return CurWrap(self, self.real.cursor(*a, **kw))
     def execute(self, sql, *args):
-        k = gate('execute', classify(sql), self)
+        k = gate('execute', classify(sql), self, sqlinfo(sql, args))
         r = self.real.execute(sql, *args)
         after(k)
         return CurWrap(self, r)
@@ -413,6 +422,7 @@ def run_session_case(case, workdir):
             except Exception: pass
         return {'harness_error': 'the session blocked on the provider lock for more than %.0f s (deadlock); trace so far: %r' % (case.get('timeout', 8.0), [t[:4] for t in CTL.trace][-8:]), 'deadlock': True}
     out['trace'] = [t[:6] for t in CTL.trace]
+    out['writes'] = [[i, t[7]] for i, t in enumerate(CTL.trace) if t[0] == 'execute' and t[1] == 'write']
     out['statements'] = {str(cid): w.statements for cid, w in sorted(CTL.cons.items())}
     out['rows_after'] = read_rows(path)
     out['rows_before'] = rows0
@@ -453,7 +463,9 @@ class SchedLock(object):
 
 
 class Worker(object):
-    def __init__(self, name, db, T, results):
+    def __init__(self, name, db, T, results, with_sem=False):
+        self.with_sem = with_sem      # `with db_session:` semantics: an exception in the body ends the body; the exit rolls back
+        self.aborted = False
         self.name = name
         self.q = queue.Queue()
         self.db, self.T = db, T
@@ -471,8 +483,14 @@ class Worker(object):
             if (op == 'enter' and self.cm is not None) or (op != 'enter' and self.cm is None):
                 self.results.put(('done', self.name, seq, 'noop'))
                 continue
+            if self.with_sem and self.aborted:
+                if op in ('exit', 'exit_if_open'): op = 'exit_exc'
+                elif op != 'exit_exc':
+                    self.results.put(('done', self.name, seq, 'noop'))
+                    continue
             try:
                 if op == 'enter':
+                    self.aborted = False
                     self.cm = orm.db_session(**session_kwargs(arg))
                     self.cm.__enter__()
                 elif op in ('exit', 'exit_if_open'):
@@ -487,6 +505,8 @@ class Worker(object):
                 out = 'ok'
             except BaseException as e:
                 out = exc_enum(e)
+                if op not in ('enter', 'exit', 'exit_exc', 'exit_if_open'): self.aborted = True
+            if op == 'exit_exc' and out == 'ok' and self.with_sem: out = 'rolled-back'
             self.results.put(('done', self.name, seq, out))
 
 
@@ -510,7 +530,7 @@ def run_thread_case(case, workdir):
     pre_lock = SchedLock('pre', notify)
     db.provider.transaction_lock = txn_lock
     db.provider.pre_transaction_lock = pre_lock
-    workers = {i: Worker('w%d' % i, db, T, results) for i in range(case['threads'])}
+    workers = {i: Worker('w%d' % i, db, T, results, bool(case.get('with_sem'))) for i in range(case['threads'])}
     hard = case.get('timeout', 20.0)
     effective = []              # [thread, op, arg, outcome, lock_after]
     pending = {}                # thread -> (op, arg) of its blocked step
@@ -588,6 +608,7 @@ def run_thread_case(case, workdir):
     for w in workers.values(): w.th.join(2.0)
     out['threads_alive'] = sum(1 for w in workers.values() if w.th.is_alive())
     out['traces'] = {str(i): [e[:6] for e in CTL.trace if e[6] == 'w%d' % i] for i in range(case['threads'])}
+    out['global_trace'] = [[int(e[6][1:])] + e[:6] for e in CTL.trace if e[6].startswith('w')]
     out['closes'] = {'%s:%d' % k: w.closes for k, w in sorted(CTL.cons.items())}
     try: out['rows_after'] = read_rows(path)
     except Exception as e: out['rows_after'] = 'error:' + type(e).__name__
@@ -608,7 +629,8 @@ def crash_child(payload):
     CTL.reset()
     db, T = make_db(payload['path'], prefill=False)
     CTL.provider = db.provider
-    CTL.next_con = 1
+    db.disconnect()                         # start = 'none': the session makes its own connection (call 0)
+    CTL.cons.clear(); CTL.next_con = 0
     CTL.crash_at = payload.get('crash_at')
     CTL.crash_kind = payload.get('crash_kind', 'before')
     CTL.faults = set(payload.get('faults', []))
@@ -616,6 +638,57 @@ def crash_child(payload):
     exc, outcomes = run_body(db, T, payload['shape'], payload['ops'])
     CTL.armed = False
     return {'exc': exc, 'outcomes': outcomes, 'calls': CTL.n, 'trace': [t[:6] for t in CTL.trace]}
+
+
+def crash_batch(payload, workdir):
+    """For every case: a fresh database file, a forked child process that runs the write program on it and dies with
+    os._exit(9) when DB-API call `crash_at` is reached (before it is made); this process then reads the file, which it has
+    never had open.  Nothing of Pony is bound in this process before the fork."""
+    from pony import orm        # import only (no Database is created in this process), so that the children need not re-import
+    import pony.orm.dbproviders.sqlite
+    outs = []
+    template = os.path.join(workdir, 'template.sqlite')
+    con = sqlite3.connect(template)
+    con.execute('CREATE TABLE "T" ("id" INTEGER PRIMARY KEY AUTOINCREMENT, "v" INTEGER NOT NULL)')
+    con.executemany('INSERT INTO "T" ("id", "v") VALUES (?, 0)', [(i,) for i in range(1, 7)])
+    con.commit(); con.close()
+    for n, case in enumerate(payload['cases']):
+        path = os.path.join(workdir, 'k%d.sqlite' % n)
+        for suffix in ('', '-journal', '-wal', '-shm'):
+            if os.path.exists(path + suffix): os.remove(path + suffix)
+        shutil.copyfile(template, path)
+        pid = os.fork()
+        if pid == 0:
+            try:
+                crash_child(dict(case, path=path))
+                os._exit(0)
+            except BaseException:
+                os._exit(7)
+        deadline = time.time() + float(case.get('timeout', 30.0))
+        status = None
+        while time.time() < deadline:
+            wpid, st = os.waitpid(pid, os.WNOHANG)
+            if wpid == pid:
+                status = os.WEXITSTATUS(st) if os.WIFEXITED(st) else -os.WTERMSIG(st)
+                break
+            time.sleep(0.002)
+        if status is None:
+            try: os.kill(pid, 9)
+            except OSError: pass
+            os.waitpid(pid, 0)
+            outs.append({'harness_error': 'child did not finish', 'timeout': True})
+            continue
+        try:
+            rows = read_rows(path)
+            journal = os.path.exists(path + '-journal')
+        except Exception as e:
+            outs.append({'harness_error': 'cannot read the database after the crash: %s: %s' % (type(e).__name__, e), 'status': status})
+            continue
+        outs.append({'status': status, 'rows': rows, 'hot_journal_seen': journal})
+        for suffix in ('', '-journal'):
+            try: os.remove(path + suffix)
+            except OSError: pass
+    return outs
 
 
 # ---------------------------------------------------------------------------------------------- mode: sql_text (C35)
@@ -757,6 +830,10 @@ def main():
         res = sql_text_cases(payload)
     elif mode == 'pg':
         res = pg_cases(payload)
+    elif mode == 'crash_batch':
+        workdir = tempfile.mkdtemp(prefix='c17-', dir=payload.get('tmp') or None)
+        try: res = crash_batch(payload, workdir)
+        finally: shutil.rmtree(workdir, ignore_errors=True)
     else:
         install_proxy()
         workdir = tempfile.mkdtemp(prefix='c19-', dir=payload.get('tmp') or None)
